@@ -45,7 +45,9 @@ def codec_names(near=None):
     i = bisect.bisect_left(ALL_CODECS, near.lower().replace('-', '_'))
     lo, hi = max(0, i - 4), min(len(ALL_CODECS), i + 5)
     sib = ALL_CODECS[lo:hi] or ALL_CODECS[:3]
-    return st.one_of(st.sampled_from(sib), st.sampled_from([near.upper(), near.lower(), near.replace('-', '_'), near.replace('_', '-'), near]))
+    return st.one_of(st.sampled_from(sib), st.sampled_from([near.upper(), near.lower(), near.replace('-', '_'), near.replace('_', '-'), near]),
+                     # names Python does not know that share a long prefix with one it knows (editor suffixes, typos)
+                     st.sampled_from([near + '-unix', near + '_dos', near + 'x', near[:12] + 'zz', near[:-1], near + '-', 'x' + near]))
 
 
 @st.composite
@@ -250,6 +252,11 @@ class C15(Prop):
             for keep in (True, False):
                 got = split_lines(s, keepends=keep)
                 exp = ref_split_lines(s, keep)
+                if got == exp and len(s) % 2:
+                    # the result belongs to the caller: whatever the caller does to it must not show in a later call
+                    got.append('x')
+                    got[0] = 'y'
+                    got = split_lines(s, keepends=keep)
                 if got != exp:
                     fail = ('split-lines', 'split_lines(%r, keepends=%r) = %r, reference %r' % (s, keep, got, exp))
                     break
